@@ -186,11 +186,19 @@ func (reg *ResourceRegistry) addResource(identifier, version string, index *Inde
 	res, ok := reg.resources[identifier]
 	if !ok {
 		res = reg.newResource(identifier)
-		reg.resources[identifier] = res
 	}
 	res.Index = index
 
-	return res.AddVersion(version, available, currentRelease, preRelease)
+	if err := res.AddVersion(version, available, currentRelease, preRelease); err != nil {
+		return err
+	}
+
+	// Only register a resource that has a version: a resource without
+	// versions cannot select one.
+	if !ok {
+		reg.resources[identifier] = res
+	}
+	return nil
 }
 
 // AddResources adds resources to the registry. Errors are logged, the last one is returned. Despite errors, non-failing resources are still added. Does _not_ select new versions.
